@@ -106,8 +106,8 @@ TBeginAppend  == Step("BeginAppend")  /\ RPC(BeginAppend(Ev.s, Ev.secs, Ev.pf, E
 TRound2Append == Step("Round2Append") /\ (RPC(Round2Append(Ev.s, Ev.sf)) \/ RPC(Ignored(Ev.s)))
 TBeginRoots   == Step("BeginRoots")   /\ RPC(BeginRoots(Ev.s, Ev.off, Ev.len, Ev.pf, Ev.sf))
 TBeginLatest  == Step("BeginLatest")  /\ RPC(BeginLatest(Ev.s))
-TBeginFund    == Step("BeginFund")    /\ RPC(BeginFund(Ev.s, Ev.deps, Ev.sf))
-TBeginRepl    == Step("BeginRepl")    /\ RPC(BeginRepl(Ev.s, Ev.kind, Ev.accs, Ev.target, Ev.cf))
+TBeginFund    == Step("BeginFund")    /\ RPC(BeginFund(Ev.s, Ev.deps, Ev.sf, Ev.af))
+TBeginRepl    == Step("BeginRepl")    /\ RPC(BeginRepl(Ev.s, Ev.kind, Ev.accs, Ev.target, Ev.cf, Ev.af))
 TRound2Repl   == Step("Round2Repl")   /\ (RPC(Round2Repl(Ev.s, Ev.sf)) \/ RPC(Ignored(Ev.s)))
 TBeginAttach  == Step("BeginAttach")  /\ RPC(BeginAttach(Ev.s, Ev.b))
 TBeginDetach  == Step("BeginDetach")  /\ RPC(BeginDetach(Ev.s, Ev.b))
